@@ -36,7 +36,8 @@ COND_COLS = ['C', 'D', 'E', 'F', 'G', 'H', 'I', 'J', 'K', 'L', 'M', 'N']
 TRUTHS = [True, False, 1, 0, None, -1.5]
 
 # nest := ('L', kind) | ('IF', [v]) | ('IF', [v, w]) | ('IFS', [v...]) | ('IFERROR', [a, b])
-CONSTRUCTS = [('IF', 1), ('IF', 2), ('IFS', 1), ('IFS', 2), ('IFS', 3), ('IFERROR', 2)]
+# IFSR: IFS whose last condition repeats its first one (the value of the first pair answers)
+CONSTRUCTS = [('IF', 1), ('IF', 2), ('IFS', 1), ('IFS', 2), ('IFS', 3), ('IFERROR', 2), ('IFSR', 2), ('IFSR', 3)]
 
 
 def depth1():
@@ -81,10 +82,13 @@ def render(nest):
         if name == 'IF':
             c = cond()
             return 'IF(' + ','.join([c] + [go(v) for v in vals]) + ')'
-        if name == 'IFS':
+        if name in ('IFS', 'IFSR'):
             parts = []
-            for v in vals:
-                parts.append(cond())
+            first = None
+            for k, v in enumerate(vals):
+                c = first if (name == 'IFSR' and k == len(vals) - 1) else cond()
+                first = first or c
+                parts.append(c)
                 parts.append(go(v))
             return 'IFS(' + ','.join(parts) + ')'
         return 'IFERROR(' + go(vals[0]) + ',' + go(vals[1]) + ')'
@@ -306,5 +310,5 @@ def _na_by_ifs(nest, vals):
 def _nconds(n):
     if n[0] == 'L':
         return 0
-    own = {'IF': 1, 'IFS': len(n[1]), 'IFERROR': 0}[n[0]]
+    own = {'IF': 1, 'IFS': len(n[1]), 'IFSR': len(n[1]) - 1, 'IFERROR': 0}[n[0]]
     return own + sum(_nconds(v) for v in n[1])
